@@ -137,18 +137,18 @@ func ToExpr(args []interface{}, types []reflect.Type, isVariadic bool) ([]Expr, 
 			typ = types[len(types)-1]
 		}
 
+		// 兼容可变参数: 只有可变参数部分的元素使用切片的元素类型
+		if isVariadic && i >= len(types)-1 {
+			typ = typ.Elem()
+		}
 		if expr, ok := a.(Expr); ok {
 			expressions[i] = expr
 		} else {
-			// 兼容可变参数
-			if isVariadic {
-				typ = typ.Elem()
-			}
 			// 默认使用 equals 表达式
 			expressions[i] = Equals(a)
 		}
 
-		if err := expressions[i].Resolve([]reflect.Type{typ}, isVariadic); err != nil {
+		if err := expressions[i].Resolve([]reflect.Type{typ}, false); err != nil {
 			return nil, err
 		}
 	}
